@@ -611,6 +611,13 @@ func (s *sessRun) request(rng *mrand.Rand, q int) {
 				if len(val) > maxLen {
 					val = val[:maxLen]
 				}
+				if field == "email" && rng.Intn(4) == 0 {
+					// an e-mail claim of any length (the provider chooses it): around the codecs' ceiling on the encoded value, and far
+					// above it; either the cookie is not written (Save fails) or its line fits in 4096 bytes, as the model says
+					n := []int{1700 + rng.Intn(600), 1880 + rng.Intn(160), 2300 + rng.Intn(6000)}[rng.Intn(3)]
+					val = strings.Repeat("e", n-12) + "@example.com"
+					T.stat("session.long-email")
+				}
 				switch field {
 				case "email":
 					sd.SetEmail(val)
@@ -642,8 +649,15 @@ func (s *sessRun) request(rng *mrand.Rand, q int) {
 			s.ref = sRef{}
 			T.stat("session.clears")
 		} else if err := sd.Save(r, rec); err != nil {
-			T.oracle("C17", "Save failed for values written through the API", M{"err": err.Error()}, s.replay())
+			if strings.Contains(err.Error(), "failed to save main session") && strings.Contains(err.Error(), "too long") && len(rec.Header()["Set-Cookie"]) == before {
+				// the codec refused a main cookie above its ceiling: nothing was written; the model says for which contents this happens
+				s.rec(M{"op": op, "obs": M{"saveErr": true}})
+				T.stat("session.save-refused-for-length")
+			} else {
+				T.oracle("C17", "Save failed for values written through the API", M{"err": err.Error()}, s.replay())
+			}
 			s.known = false
+			s.jar.apply(rec.Header()) // (what an earlier Save of the same response has written reaches the browser)
 			return
 		}
 		lines := M{}
